@@ -229,6 +229,9 @@ pub fn run_chaser(ctx: &Ctx, rep: &mut Report, index: u64, c: &Chaser) {
     }
     flush_trips(ctx, rep, index, &sess, case);
     rep.count(&format!("chaser.{}", c.name));
+    if rep.want_sample() && index % 17 == 0 {
+        rep.sample(json!({"chaser": c.name, "lines": c.lines, "start": c.start, "outcome": res.to_json(), "max_stack": max_stack, "max_loops": max_loops, "turns": turns}));
+    }
     rep.nontrivial(hash_str(&format!("{}|{:?}|{}|{}", c.name, c.lines, c.start, ctx.profile)));
 }
 
